@@ -1,7 +1,7 @@
 (* Proofs relating the documented forms of Model/StdMetaDoc.v to the model of
    /repo/src/metadata.rs in Model/StdMeta.v (statements are collected in
    Properties/C13.v). *)
-From Coq Require Import String Ascii.
+From Coq Require Import String Ascii Qpower.
 From CL Require Import Base.StrLemmas Model.StdMeta Model.StdMetaDoc Proofs.StdMetaProofs.
 Open Scope N_scope.
 
@@ -1552,4 +1552,757 @@ Proof.
   fold s. rewrite T, last_is_snoc, removelast_last. change (62 =? 62) with true. cbv iota.
   rewrite (split_once_first 60 name [] url NN). cbn [rev app]. rewrite FU, NA. cbn [negb andb].
   destruct (is_url alpha (trim url)); reflexivity.
+Qed.
+
+(* ------------------------------------------------------------------ the URL grammar *)
+
+Lemma starts_with_sep s : starts_with [58; 47; 47] s = true -> s = [58; 47; 47] ++ skipn 3 s.
+Proof.
+  destruct s as [|a [|b [|c r]]]; cbn [starts_with]; try discriminate;
+    rewrite ?andb_false_r; try discriminate.
+  intro H. apply andb_true_iff in H as [A H]. apply andb_true_iff in H as [B H].
+  apply andb_true_iff in H as [C _]. apply N.eqb_eq in A, B, C. subst. reflexivity.
+Qed.
+
+Lemma split_once_sep_spec s : forall pre a b,
+  split_once_sep pre s = Some (a, b) -> rev pre ++ s = a ++ [58; 47; 47] ++ b.
+Proof.
+  induction s as [|c r IH]; intros pre a b; cbn [split_once_sep]; [discriminate|].
+  destruct (starts_with [58; 47; 47] (c :: r)) eqn:E.
+  - intro H. inversion H; subst. rewrite (starts_with_sep _ E) at 1. reflexivity.
+  - intro H. apply IH in H. cbn [rev] in H. rewrite <- app_assoc in H. exact H.
+Qed.
+
+Lemma split_once_sep_first a : forall pre b,
+  ~ In 58 a -> split_once_sep pre (a ++ 58 :: 47 :: 47 :: b) = Some (rev pre ++ a, b).
+Proof.
+  induction a as [|c a IH]; intros pre b H.
+  - cbn [app split_once_sep starts_with N.eqb Pos.eqb andb skipn]. rewrite app_nil_r. reflexivity.
+  - cbn [app split_once_sep starts_with].
+    replace (58 =? c) with false by (symmetry; apply N.eqb_neq; intro E; apply H; left; auto).
+    cbn [andb]. rewrite IH by (intro K; apply H; right; exact K).
+    cbn [rev]. rewrite <- app_assoc. reflexivity.
+Qed.
+
+Lemma split_once_full d s : forall pre a b,
+  split_once d pre s = Some (a, b) -> exists a', a = rev pre ++ a' /\ ~ In d a' /\ s = a' ++ d :: b.
+Proof.
+  induction s as [|c r IH]; intros pre a b; cbn [split_once]; [discriminate|].
+  destruct (c =? d) eqn:E.
+  - apply N.eqb_eq in E. subst c. intro H. inversion H; subst. exists []. rewrite app_nil_r.
+    split; [reflexivity|]. split; [intros []|reflexivity].
+  - intro H. apply IH in H as (a' & -> & NI & ->). exists (c :: a'). cbn [rev]. rewrite <- app_assoc.
+    split; [reflexivity|]. split; [|reflexivity]. intros [K|K]; [apply N.eqb_neq in E; congruence|contradiction].
+Qed.
+
+Lemma split_once_none d s : forall pre, split_once d pre s = None <-> ~ In d s.
+Proof.
+  induction s as [|c r IH]; intro pre; cbn [split_once In]; [split; [intros _ []|reflexivity]|].
+  destruct (c =? d) eqn:E.
+  - apply N.eqb_eq in E. split; [discriminate|]. intro H. exfalso. apply H. left. exact E.
+  - apply N.eqb_neq in E. rewrite IH. tauto.
+Qed.
+
+Lemma forallb_n_eq p s : forallb_n p s = forallb p s.
+Proof. induction s as [|c r IH]; [reflexivity|]. cbn [forallb_n forallb]. rewrite IH. reflexivity. Qed.
+
+Lemma existsb_n_false p s : existsb_n p s = false <-> forallb (fun c => negb (p c)) s = true.
+Proof.
+  induction s as [|c r IH]; cbn [existsb_n forallb]; [tauto|].
+  rewrite orb_false_iff, andb_true_iff, negb_true_iff, IH. tauto.
+Qed.
+
+Lemma forallb_notin (p : N -> bool) x s : forallb p s = true -> p x = false -> ~ In x s.
+Proof. intros H X I. rewrite forallb_forall in H. rewrite (H x I) in X. discriminate. Qed.
+
+(* the URL test of the code is the documented URL shape; [alpha 58 = false]: a colon is not
+   alphabetic (true of char::is_alphabetic) *)
+Lemma is_url_iff alpha s : alpha 58 = false -> (is_url alpha s = true <-> Doc.valid_url alpha s).
+Proof.
+  intro A58. unfold is_url. split.
+  - destruct (split_once_sep [] s) as [[scheme rest]|] eqn:E; [|discriminate].
+    apply split_once_sep_spec in E. cbn [rev app] in E.
+    destruct rest as [|r0 rest'] eqn:R; [discriminate|]. rewrite <- R in *.
+    assert (RN : rest <> []) by (subst; discriminate). clear R.
+    destruct (forallb_n alpha scheme) eqn:SA; [|discriminate]. cbn [negb]. rewrite forallb_n_eq in SA.
+    destruct (split_once 47 [] rest) as [[h tl]|] eqn:SP.
+    + apply split_once_full in SP as (h' & -> & NI & RE). cbn [rev app] in *.
+      destruct h' as [|h0 h1] eqn:HE; [discriminate|]. rewrite <- HE in *.
+      intro W. apply negb_true_iff, existsb_n_false in W.
+      exists scheme, h', (47 :: tl). subst rest. repeat split; try assumption.
+      * apply (forallb_notin alpha); assumption.
+      * subst; discriminate.
+      * right. eexists. reflexivity.
+    + apply split_once_none in SP.
+      destruct rest as [|h0 h1] eqn:HE; [discriminate|]. rewrite <- HE in *.
+      intro W. apply negb_true_iff, existsb_n_false in W.
+      exists scheme, rest, []. rewrite app_nil_r. repeat split; try assumption.
+      * apply (forallb_notin alpha); assumption.
+      * left. reflexivity.
+  - intros (scheme & host & rest & -> & SA & N58 & HN & N47 & W & RS).
+    cbn [app]. rewrite (split_once_sep_first scheme [] (host ++ rest) N58). cbn [rev app].
+    destruct (host ++ rest) as [|x y] eqn:HR.
+    { apply app_eq_nil in HR as [HR _]. contradiction. }
+    rewrite <- HR. rewrite forallb_n_eq, SA. cbn [negb].
+    apply existsb_n_false in W.
+    destruct RS as [->|(r & ->)].
+    + rewrite app_nil_r. apply (split_once_none 47 host []) in N47. rewrite N47.
+      destruct host; [contradiction|]. rewrite W. reflexivity.
+    + rewrite (split_once_first 47 host [] r N47). cbn [rev app].
+      destruct host; [contradiction|]. rewrite W. reflexivity.
+Qed.
+
+(* ------------------------------------------------------------------ trimming *)
+
+Lemma take_while_forall p s : forallb p (take_while p s) = true.
+Proof.
+  induction s as [|c r IH]; cbn [take_while]; [reflexivity|].
+  destruct (p c) eqn:E; [cbn [forallb]; rewrite E, IH|]; reflexivity.
+Qed.
+
+Lemma trim_trimmed s : Doc.trimmed s (trim s).
+Proof.
+  unfold Doc.trimmed, trim, trim_start.
+  set (m := drop_while uni_ws s).
+  exists (take_while uni_ws s), (rev (take_while uni_ws (rev m))).
+  assert (M : m = trim_end m ++ rev (take_while uni_ws (rev m))).
+  { unfold trim_end. rewrite <- rev_app_distr, <- take_drop_while, rev_involutive. reflexivity. }
+  split; [rewrite <- M; apply take_drop_while|].
+  split; [apply take_while_forall|].
+  split; [unfold Doc.blank; rewrite forallb_rev; apply take_while_forall|].
+  split.
+  - destruct (trim_end m) as [|c t] eqn:E; [exact I|].
+    try rewrite E in M. cbn [app] in M. unfold m in M. apply drop_while_head in M. exact M.
+  - unfold trim_end. rewrite rev_involutive.
+    destruct (drop_while uni_ws (rev m)) as [|c t] eqn:E; [exact I|]. apply drop_while_head in E. exact E.
+Qed.
+
+Lemma trim_end_blank b : Doc.blank b = true -> trim_end b = [].
+Proof.
+  intro B. unfold trim_end. rewrite drop_while_all_nil; [reflexivity|]. rewrite forallb_rev. exact B.
+Qed.
+
+Lemma trimmed_unique s t : Doc.trimmed s t -> t = trim s.
+Proof.
+  intros (a & b & -> & A & B & F & L). unfold trim, trim_start.
+  destruct t as [|c t'].
+  - cbn [app]. rewrite drop_while_all_nil; [reflexivity|].
+    unfold Doc.blank in *. rewrite forallb_app, A, B. reflexivity.
+  - cbn [app]. rewrite (drop_while_stop uni_ws a c _ A F).
+    destruct (rev (c :: t')) as [|x D'] eqn:R.
+    { apply (f_equal (@rev N)) in R. rewrite rev_involutive in R. discriminate. }
+    change (c :: t' ++ b) with ((c :: t') ++ b).
+    rewrite (trim_end_keep _ _ x D' R L), (trim_end_blank b B), app_nil_r. reflexivity.
+Qed.
+
+Lemma cleaned_filter s o : Doc.cleaned s o <-> o = nu_filter (Some s).
+Proof.
+  unfold Doc.cleaned, nu_filter. split.
+  - intros (t & T & ->). apply trimmed_unique in T. subst t. destruct (trim s); reflexivity.
+  - intros ->. exists (trim s). split; [apply trim_trimmed|]. destruct (trim s); reflexivity.
+Qed.
+
+(* ------------------------------------------------------------------ name and URL, all strings *)
+
+Lemma trim_ascii_end_prefix s :
+  exists w, s = trim_ascii_end s ++ w /\ forallb ascii_ws w = true.
+Proof.
+  unfold trim_ascii_end. exists (rev (take_while ascii_ws (rev s))). split.
+  - rewrite <- rev_app_distr, <- take_drop_while, rev_involutive. reflexivity.
+  - rewrite forallb_rev. apply take_while_forall.
+Qed.
+
+Lemma no_angle_iff url : existsb_n is_angle url = false <-> Doc.no_angle url.
+Proof.
+  unfold Doc.no_angle. induction url as [|c r IH]; cbn [existsb_n In]; [tauto|].
+  rewrite orb_false_iff, IH. unfold is_angle. rewrite orb_false_iff, !N.eqb_neq.
+  split; [intros ((A & B) & C & D); split; intros [K|K]; auto|].
+  intros (A & B). repeat split; auto.
+Qed.
+
+(* what the bracket branch of NameAndUrl::parse finds *)
+Definition model_bracket alpha (s : str) : option (str * str) :=
+  let t := trim_ascii_end s in
+  if last_is t 62 then
+    match split_once 60 [] (removelast t) with
+    | Some (name, url) =>
+      if negb (existsb_n is_angle url) && is_url alpha (trim url) then Some (name, url) else None
+    | None => None
+    end
+  else None.
+
+Lemma nu_parse_model alpha c s :
+  fix_url c = true ->
+  nu_parse alpha c s
+  = match model_bracket alpha s with
+    | Some (name, url) => nu_new (Some name) (Some url)
+    | None => if is_url alpha s then nu_new None (Some s) else nu_new (Some s) None
+    end.
+Proof.
+  intro F. unfold nu_parse, model_bracket. rewrite F.
+  destruct (last_is (trim_ascii_end s) 62); [|reflexivity].
+  destruct (split_once 60 [] (removelast (trim_ascii_end s))) as [[name url]|]; [|reflexivity].
+  destruct (negb (existsb_n is_angle url) && is_url alpha (trim url)); reflexivity.
+Qed.
+
+Lemma model_bracket_iff alpha s name url :
+  alpha 58 = false ->
+  (model_bracket alpha s = Some (name, url) <-> Doc.bracket_form alpha s name url).
+Proof.
+  intro A58. unfold model_bracket. split.
+  - destruct (trim_ascii_end_prefix s) as (w & SW & W).
+    destruct (last_is (trim_ascii_end s) 62) eqn:L; [|discriminate].
+    apply last_is_split in L.
+    destruct (split_once 60 [] (removelast (trim_ascii_end s))) as [[nm ur]|] eqn:SP; [|discriminate].
+    destruct (existsb_n is_angle ur) eqn:AN; [discriminate|]. cbn [negb andb].
+    destruct (is_url alpha (trim ur)) eqn:U; [|discriminate]. intro H. inversion H; subst nm ur.
+    apply split_once_full in SP as (n' & -> & NI & RE). cbn [rev app] in *.
+    exists w, (trim url). split; [|split; [exact NI|split; [apply no_angle_iff, AN|split; [exact W|split;
+      [apply trim_trimmed|apply (is_url_iff alpha _ A58), U]]]]].
+    rewrite SW at 1. rewrite L, RE. unfold Doc.print_bracket. rewrite <- !app_assoc. reflexivity.
+  - intros (pad & u & -> & NI & NA & PD & TR & VU).
+    assert (T : trim_ascii_end (Doc.print_bracket name url pad) = (name ++ 60 :: url) ++ [62]).
+    { unfold trim_ascii_end, Doc.print_bracket.
+      assert (E : name ++ [60] ++ url ++ [62] ++ pad = ((name ++ 60 :: url) ++ [62]) ++ pad)
+        by (rewrite <- !app_assoc; reflexivity).
+      rewrite E, rev_app_distr, (rev_app_distr (name ++ 60 :: url) [62]). cbn [rev app].
+      rewrite (drop_while_stop ascii_ws (rev pad) 62) by (rewrite ?forallb_rev; (exact PD || reflexivity)).
+      cbn [rev]. rewrite rev_involutive. reflexivity. }
+    rewrite T, last_is_snoc, removelast_last. change (62 =? 62) with true. cbv iota.
+    rewrite (split_once_first 60 name [] url NI). cbn [rev app].
+    apply no_angle_iff in NA. rewrite NA. cbn [negb andb].
+    apply trimmed_unique in TR. subst u. apply (is_url_iff alpha _ A58) in VU. rewrite VU. reflexivity.
+Qed.
+
+(* NameAndUrl::parse is the documented reading, for every string *)
+Lemma nu_parse_iff alpha c s n u :
+  fix_url c = true -> alpha 58 = false ->
+  (nu_parse alpha c s = (n, u) <-> Doc.name_url alpha s n u).
+Proof.
+  intros F A58. rewrite (nu_parse_model alpha c s F). unfold nu_new. split.
+  - destruct (model_bracket alpha s) as [[name url]|] eqn:MB.
+    + intro H. inversion H; subst. apply (model_bracket_iff alpha s name url A58) in MB.
+      apply (Doc.nu_both alpha s name url); [exact MB|apply cleaned_filter; reflexivity|apply cleaned_filter; reflexivity].
+    + assert (NB : forall name url, ~ Doc.bracket_form alpha s name url).
+      { intros name url B. apply (model_bracket_iff alpha s name url A58) in B. congruence. }
+      destruct (is_url alpha s) eqn:U; intro H; inversion H; subst.
+      * apply Doc.nu_url; [exact NB|apply (is_url_iff alpha s A58), U|apply cleaned_filter; reflexivity].
+      * apply Doc.nu_name; [exact NB| |apply cleaned_filter; reflexivity].
+        intro V. apply (is_url_iff alpha s A58) in V. congruence.
+  - intro H. inversion H as [name url n' u' B CN CU|u' NB V CU|n' NB V CN]; subst.
+    + apply (model_bracket_iff alpha s name url A58) in B. rewrite B.
+      apply cleaned_filter in CN, CU. subst. reflexivity.
+    + destruct (model_bracket alpha s) as [[name url]|] eqn:MB.
+      { apply (model_bracket_iff alpha s name url A58) in MB. apply NB in MB. contradiction. }
+      apply (is_url_iff alpha s A58) in V. rewrite V. apply cleaned_filter in CU. subst. reflexivity.
+    + destruct (model_bracket alpha s) as [[name url]|] eqn:MB.
+      { apply (model_bracket_iff alpha s name url A58) in MB. apply NB in MB. contradiction. }
+      destruct (is_url alpha s) eqn:U; [apply (is_url_iff alpha s A58) in U; contradiction|].
+      apply cleaned_filter in CN. subst. reflexivity.
+Qed.
+
+(* ------------------------------------------------------------------ accepted => documented: the
+   unit reader and the float fallback, for every string *)
+
+Lemma ws_words_blank c s l : uni_ws c = true -> Doc.ws_words s l -> Doc.ws_words (c :: s) l.
+Proof.
+  intros C H. inversion H as [b B|b w rest l' B WN W R T]; subst.
+  - apply Doc.ww_nil. unfold Doc.blank in *. cbn [forallb]. rewrite C, B. reflexivity.
+  - change (c :: b ++ w ++ rest) with ((c :: b) ++ w ++ rest). apply Doc.ww_cons; try assumption.
+    unfold Doc.blank in *. cbn [forallb]. rewrite C, B. reflexivity.
+Qed.
+
+Lemma ws_words_single w : w <> [] -> nows w -> Doc.ws_words w [w].
+Proof.
+  intros NE NW.
+  pose proof (Doc.ww_cons [] w [] [] eq_refl NE NW I (Doc.ww_nil [] eq_refl)) as K.
+  cbn [app] in K. rewrite app_nil_r in K. exact K.
+Qed.
+
+Lemma split_ws_words_gen s : forall cur,
+  nows (rev cur) -> Doc.ws_words (rev cur ++ s) (split_ws cur s).
+Proof.
+  induction s as [|c r IH]; intros cur NW; cbn [split_ws].
+  - rewrite app_nil_r. destruct cur as [|a cur'] eqn:E.
+    + apply (Doc.ww_nil []). reflexivity.
+    + rewrite <- E in *. apply ws_words_single; [|exact NW].
+      intro K. apply (f_equal (@rev N)) in K. rewrite rev_involutive in K. subst. discriminate.
+  - destruct (uni_ws c) eqn:C.
+    + pose proof (IH [] ltac:(reflexivity)) as T. cbn [rev app] in T.
+      destruct cur as [|a cur'] eqn:E.
+      * cbn [rev app]. apply ws_words_blank; assumption.
+      * rewrite <- E in *. change (rev cur ++ c :: r) with ([] ++ rev cur ++ c :: r).
+        apply Doc.ww_cons; try reflexivity; [|exact NW|exact C|apply ws_words_blank; assumption].
+        intro K. apply (f_equal (@rev N)) in K. rewrite rev_involutive in K. subst. discriminate.
+    + assert (NW' : nows (rev (c :: cur))).
+      { cbn [rev]. apply nows_app; [exact NW|]. unfold nows. cbn [forallb]. rewrite C. reflexivity. }
+      pose proof (IH (c :: cur) NW') as T. cbn [rev] in T. rewrite <- app_assoc in T. exact T.
+Qed.
+
+Lemma split_ws_words s : Doc.ws_words s (split_ws [] s).
+Proof. apply (split_ws_words_gen s []). reflexivity. Qed.
+
+Lemma doc_num_char c : Doc.num_char c = num_char c.
+Proof. reflexivity. Qed.
+
+(* one number-unit pair as the code read it: the texts, what the float reader and the unit
+   conversion answered *)
+Definition item := (str * str * fval * fval)%type.
+Definition item_texts (i : item) : str * str := match i with (n, u, _, _) => (n, u) end.
+Definition item_mins (i : item) : fval := match i with (_, _, _, m) => m end.
+Definition item_read pf cv (i : item) : Prop :=
+  match i with (n, u, v, m) => pf n = Some v /\ to_minutes cv v u = Some m end.
+
+Lemma units_loop_inv pf cv fuel : forall parts tot total,
+  units_loop pf cv fuel parts tot = Some total ->
+  exists items, Doc.grouped parts (map item_texts items) /\ Forall (item_read pf cv) items
+                /\ total = fold_left fadd (map item_mins items) tot.
+Proof.
+  induction fuel as [|f IH]; intros parts tot total H; cbn [units_loop] in H; [discriminate|].
+  destruct parts as [|part rest].
+  - inversion H; subst. exists []. split; [constructor|]. split; [constructor|reflexivity].
+  - destruct (drop_while num_char part) as [|x u] eqn:DW.
+    + destruct rest as [|next rest'']; [discriminate|].
+      destruct (pf part) as [v|] eqn:P; [|discriminate].
+      destruct (to_minutes cv v next) as [m|] eqn:TM; [|discriminate].
+      apply IH in H as (items & G & F & ->).
+      exists ((part, next, v, m) :: items). cbn [map item_texts item_mins fold_left].
+      split; [apply Doc.g_separate; [apply drop_while_all, DW|exact G]|].
+      split; [constructor; [split; assumption|exact F]|reflexivity].
+    + destruct (pf (take_while num_char part)) as [v|] eqn:P; [|discriminate].
+      destruct (to_minutes cv v (x :: u)) as [m|] eqn:TM; [|discriminate].
+      apply IH in H as (items & G & F & ->).
+      exists ((take_while num_char part, x :: u, v, m) :: items). cbn [map item_texts item_mins fold_left].
+      split.
+      * rewrite (take_drop_while num_char part) at 1. rewrite DW.
+        apply Doc.g_attached; [apply take_while_forall|apply drop_while_head in DW; exact DW|exact G].
+      * split; [constructor; [split; assumption|exact F]|reflexivity].
+Qed.
+
+Definition is_fin (v : fval) : bool := match v with FFin _ => true | _ => false end.
+
+Lemma fadd_fin a b : is_fin (fadd a b) = true -> is_fin a = true /\ is_fin b = true.
+Proof. destruct a as [| |p], b as [| |q]; cbn; try discriminate; try (destruct (Bool.eqb neg neg0); discriminate); auto. Qed.
+
+Lemma fold_fadd_fin ms : forall tot,
+  is_fin (fold_left fadd ms tot) = true -> is_fin tot = true /\ Forall (fun m => is_fin m = true) ms.
+Proof.
+  induction ms as [|m r IH]; intros tot H; cbn [fold_left] in H; [split; [exact H|constructor]|].
+  apply IH in H as (H & F). apply fadd_fin in H as (A & B). split; [exact A|constructor; assumption].
+Qed.
+
+Definition fin_val (v : fval) : Q := match v with FFin q => q | _ => 0%Q end.
+Definition qsum (l : list Q) : Q := fold_right Qplus 0%Q l.
+
+Lemma fold_fadd_sum ms : forall a,
+  Forall (fun m => is_fin m = true) ms ->
+  exists q, fold_left fadd ms (FFin a) = FFin q /\ (q == a + qsum (map fin_val ms))%Q.
+Proof.
+  induction ms as [|m r IH]; intros a F; cbn [fold_left map qsum fold_right].
+  - exists a. split; [reflexivity|ring].
+  - inversion F as [|? ? M F']; subst. destruct m as [| |b]; try discriminate. cbn [fadd fin_val].
+    destruct (IH (a + b)%Q F') as (q & E & Q). exists q. split; [exact E|]. rewrite Q. unfold qsum. ring.
+Qed.
+
+Lemma faffine_fin d1 r1 r2 d2 v m :
+  faffine d1 r1 r2 d2 v = FFin m -> exists q, v = FFin q /\ m = ((q + d1) * r1 / r2 - d2)%Q.
+Proof. destruct v; cbn [faffine]; try discriminate. intro H. inversion H. eexists. split; reflexivity. Qed.
+
+Lemma to_minutes_fin cv v u m : to_minutes cv v u = Some (FFin m) -> exists q, v = FFin q.
+Proof.
+  unfold to_minutes. destruct cv as [|u0 cv'].
+  - unfold hard_coded_time_units.
+    repeat match goal with |- context [if ?b then _ else _] => destruct b end; intro HH; inversion HH as [E];
+      try (apply faffine_fin in E as (q & -> & _)); eauto.
+  - unfold dynamic_time_units.
+    repeat match goal with
+           | |- context [match ?e with Some _ => _ | None => _ end] => destruct e as [[]|]
+           | |- context [if ?b then _ else _] => destruct b
+           end; intro HH; inversion HH as [E]; try (apply faffine_fin in E as (q & -> & _)); eauto.
+Qed.
+
+Lemma cast_checked_inv v n :
+  cast_checked v = Some n ->
+  exists q, v = FFin q /\ (0 <= q)%Q /\ (Doc.round q <= Z.of_N u32_max)%Z /\ n = Z.to_N (Doc.round q).
+Proof.
+  destruct v as [| |q]; cbn [cast_checked]; try discriminate.
+  destruct (Qle_bool 0 q) eqn:P; [|discriminate]. apply Qle_bool_iff in P.
+  rewrite (qround_nonneg q P). cbn [andb].
+  destruct (Z.leb_spec (Doc.round q) (Z.of_N u32_max)) as [LE|]; [|discriminate].
+  intro HH. inversion HH. exists q. auto.
+Qed.
+
+(* the reading of a string as number-unit pairs *)
+Definition units_reading pf cv (s : str) (n : N) : Prop :=
+  exists ws (items : list item) q,
+    Doc.ws_words s ws /\ Doc.grouped ws (map item_texts items)
+    /\ Forall (fun i => item_read pf cv i /\ exists v m, i = (fst (item_texts i), snd (item_texts i), FFin v, FFin m)) items
+    /\ (q == qsum (map (fun i => fin_val (item_mins i)) items))%Q
+    /\ (0 <= q)%Q /\ (Doc.round q <= Z.of_N u32_max)%Z /\ n = Z.to_N (Doc.round q).
+
+Lemma parse_with_units_inv pf c cv s n :
+  fix_cast c = true -> parse_with_units pf c cv s = Some n -> units_reading pf cv s n.
+Proof.
+  intros FC H. unfold parse_with_units, units_total in H.
+  destruct (units_loop pf cv (S (List.length (split_ws [] s))) (split_ws [] s) (FFin 0)) as [total|] eqn:U; [|discriminate].
+  unfold finish_cast in H. rewrite FC in H.
+  apply cast_checked_inv in H as (q & -> & P & R & ->).
+  apply units_loop_inv in U as (items & G & F & T).
+  assert (FIN : is_fin (fold_left fadd (map item_mins items) (FFin 0)) = true) by (rewrite <- T; reflexivity).
+  apply fold_fadd_fin in FIN as (_ & FM).
+  destruct (fold_fadd_sum _ 0%Q FM) as (q' & E & Q). rewrite E in T. inversion T; subst q'.
+  exists (split_ws [] s), items, q. split; [apply split_ws_words|]. split; [exact G|].
+  split; [|split; [rewrite Q, map_map; ring|auto]].
+  rewrite Forall_forall in *. intros i I. split; [apply F, I|].
+  assert (MI : is_fin (item_mins i) = true) by (apply FM, in_map, I).
+  destruct i as [[[nt ut] v] m]. cbn [item_mins item_texts fst snd] in *.
+  destruct m as [| |mq]; try discriminate.
+  destruct (F _ I) as (_ & TM). apply to_minutes_fin in TM as (vq & ->). eauto.
+Qed.
+
+Definition float_reading (pf : str -> option fval) (s : str) (n : N) : Prop :=
+  exists v, pf s = Some (FFin v) /\ (0 <= v)%Q /\ (Doc.round v <= Z.of_N u32_max)%Z
+            /\ n = Z.to_N (Doc.round v).
+
+Definition compact_reading (s : str) (n : N) : Prop :=
+  exists x, Doc.hm_spelled x s /\ n = Doc.hm_minutes x.
+
+(* "never a wrapped or otherwise wrong number": whatever string is read as a duration, the
+   number is that of one of the three documented readings, and fits a u32 *)
+Lemma parse_time_inv pf c cv s n :
+  fix_hm c = true -> fix_cast c = true ->
+  parse_time pf c cv s = Done (Some n) ->
+  (compact_reading s n \/ units_reading pf cv s n \/ float_reading pf s n) /\ n < two32.
+Proof.
+  intros FH FC H. unfold parse_time in H.
+  destruct (if fix_blank c then trim s else s); [discriminate|].
+  destruct (parse_common_total c s FH) as [r PC]. rewrite PC in H. cbn [obind] in H.
+  assert (BOUND : forall q, (Doc.round q <= Z.of_N u32_max)%Z -> Z.to_N (Doc.round q) < two32).
+  { intros q L. unfold u32_max, two32 in *. lia. }
+  destruct r as [m|].
+  - inversion H; subst m. destruct (parse_common_accepts c s n FH PC) as (x & SP & E & R).
+    split; [left; exists x; auto|exact R].
+  - destruct (parse_with_units pf c cv s) as [m|] eqn:PU.
+    + inversion H; subst m. pose proof (parse_with_units_inv pf c cv s n FC PU) as UR.
+      split; [right; left; exact UR|].
+      destruct UR as (ws & items & q & _ & _ & _ & _ & _ & L & ->). apply BOUND, L.
+    + destruct (pf s) as [v|] eqn:P; [|discriminate]. unfold finish_cast in H. rewrite FC in H.
+      inversion H as [CC]. apply cast_checked_inv in CC as (q & -> & NN & L & ->).
+      split; [right; right; exists q; auto|apply BOUND, L].
+Qed.
+
+(* --- what a unit means when the conversion answered *)
+
+Lemma to_minutes_hard_inv v u m :
+  to_minutes [] (FFin v) u = Some (FFin m) -> exists r, Doc.per_default u = Some r /\ (m == v * r)%Q.
+Proof.
+  unfold to_minutes, hard_coded_time_units. rewrite per_default_eq.
+  destruct (mem_str u hard_s); [intro H; inversion H; eexists; split; [reflexivity|unfold Qdiv; change (/ 60)%Q with (1 # 60)%Q; ring]|].
+  destruct (mem_str u hard_m); [intro H; inversion H; eexists; split; [reflexivity|ring]|].
+  destruct (mem_str u hard_h); [intro H; inversion H; eexists; split; [reflexivity|unfold Qdiv; change (/ 1)%Q with 1%Q; ring]|].
+  destruct (mem_str u hard_d); [intro H; inversion H; eexists; split; [reflexivity|unfold Qdiv; change (/ 1)%Q with 1%Q; ring]|].
+  discriminate.
+Qed.
+
+Lemma to_minutes_dynamic_inv cv v u m :
+  cv <> [] -> to_minutes cv (FFin v) u = Some (FFin m) ->
+  exists mi mu ui uu,
+    minute_unit cv = Some (mi, mu) /\ u_time mu = true /\ find_unit cv u = Some (ui, uu) /\ u_time uu = true
+    /\ m = if ui =? mi then v else ((v + u_diff uu) * u_ratio uu / u_ratio mu - u_diff mu)%Q.
+Proof.
+  intro NE. unfold to_minutes. destruct cv as [|u0 cv']; [congruence|].
+  unfold dynamic_time_units. fold (minute_unit (u0 :: cv')).
+  destruct (minute_unit (u0 :: cv')) as [[mi mu]|]; [|discriminate].
+  destruct (u_time mu) eqn:TM; [|discriminate]. cbn [negb].
+  destruct (find_unit (u0 :: cv') u) as [[ui uu]|]; [|discriminate].
+  destruct (u_time uu) eqn:TU; [|discriminate]. cbn [negb].
+  intro H. exists mi, mu, ui, uu. repeat split; try assumption; try reflexivity.
+  destruct (ui =? mi); inversion H; reflexivity.
+Qed.
+
+(* ------------------------------------------------------------------ servings: every entry *)
+
+Lemma ws_not_alnum c : uni_ws c = true -> is_ascii_alnum c = false.
+Proof. intro W. destruct (is_ascii_alnum c) eqn:A; [apply alnum_not_ws in A; congruence|reflexivity]. Qed.
+
+Lemma text_ok_head rest : Doc.text_ok rest = true <-> match rest with [] => True | c :: _ => is_ascii_alnum c = false end.
+Proof.
+  destruct rest as [|c r]; cbn [Doc.text_ok]; [tauto|]. rewrite doc_alnum, negb_true_iff. tauto.
+Qed.
+
+Lemma digits_val_zeros z d : digits_val 0 (repeat 48 z ++ d) = digits_val 0 d.
+Proof.
+  induction z as [|z IH]; [reflexivity|]. cbn [repeat app digits_val].
+  change (is_digit 48) with true. cbv iota. exact IH.
+Qed.
+
+Lemma extract_iff s n : extract_value s = Some n <-> Doc.leading s n.
+Proof.
+  unfold extract_value, Doc.leading. split.
+  - intro H. pose proof (take_drop_while is_ascii_alnum s) as SD.
+    pose proof (take_while_forall is_ascii_alnum s) as AL.
+    set (a := take_while is_ascii_alnum s) in *.
+    destruct (parse_u32_numeral a n H) as (NA & R).
+    destruct (numeral_cases a n NA) as [(a' & E)|(DA & VA)].
+    { rewrite E in AL. cbn [forallb] in AL. discriminate. }
+    assert (NE : a <> []) by (intro E; rewrite E in H; discriminate).
+    destruct (digits_decompose a NE DA) as (z & v & V & E). rewrite VA in V. inversion V; subst v.
+    exists z, (drop_while is_ascii_alnum s). split; [rewrite SD at 1; rewrite E, <- app_assoc; reflexivity|].
+    split; [exact R|]. apply text_ok_head.
+    destruct (drop_while is_ascii_alnum s) as [|c r] eqn:DW; [exact I|apply drop_while_head in DW; exact DW].
+  - intros (z & rest & -> & R & TX). apply text_ok_head in TX.
+    assert (D : forallb is_digit (repeat 48 z ++ print_nat n) = true)
+      by (rewrite forallb_app, print_nat_digits, forallb_repeat; reflexivity).
+    assert (TW : take_while is_ascii_alnum (repeat 48 z ++ print_nat n ++ rest) = repeat 48 z ++ print_nat n).
+    { rewrite app_assoc. destruct rest as [|c r].
+      - rewrite app_nil_r. apply take_while_all, digits_alnum, D.
+      - apply take_while_stop; [apply digits_alnum, D|exact TX]. }
+    rewrite TW, parse_u32_digits; [|intro E; apply app_eq_nil in E as [_ E]; apply print_nat_nonempty in E; exact E|exact D].
+    rewrite digits_val_zeros, digits_val_print. apply N.ltb_lt in R. unfold two32. rewrite R. reflexivity.
+Qed.
+
+Lemma extract_trim_iff e n : extract_value (trim e) = Some n <-> Doc.leading_padded e n.
+Proof.
+  rewrite extract_iff. unfold Doc.leading_padded. split.
+  - intros (z & rest & E & R & TX). destruct (trim_trimmed e) as (a & b & EE & A & B & _ & _).
+    exists a, (trim e ++ b). split; [exact EE|]. split; [exact A|].
+    exists z, (rest ++ b). rewrite E, <- !app_assoc. split; [reflexivity|]. split; [exact R|].
+    apply text_ok_head. apply text_ok_head in TX. destruct rest as [|c r]; [|exact TX].
+    destruct b as [|c r]; [exact I|]. unfold Doc.blank in B. cbn [forallb] in B.
+    apply andb_true_iff in B as [B _]. apply ws_not_alnum, B.
+  - intros (pad & e' & -> & P & z & rest & -> & R & TX).
+    set (D := repeat 48 z ++ print_nat n).
+    assert (DD : forallb is_digit D = true) by (unfold D; rewrite forallb_app, print_nat_digits, forallb_repeat; reflexivity).
+    assert (DN : D <> []) by (unfold D; intro E; apply app_eq_nil in E as [_ E]; apply print_nat_nonempty in E; exact E).
+    destruct D as [|d ds] eqn:DE; [congruence|].
+    assert (DW : uni_ws d = false).
+    { cbn [forallb] in DD. apply andb_true_iff in DD as [D0 _]. apply digit_not_ws, D0. }
+    destruct (rev (d :: ds)) as [|x D'] eqn:RV.
+    { apply (f_equal (@rev N)) in RV. rewrite rev_involutive in RV. discriminate. }
+    assert (XW : uni_ws x = false).
+    { rewrite <- forallb_rev, RV in DD. cbn [forallb] in DD. apply andb_true_iff in DD as [D0 _]. apply digit_not_ws, D0. }
+    assert (TR : trim (pad ++ repeat 48 z ++ print_nat n ++ rest) = (d :: ds) ++ trim_end rest).
+    { rewrite (app_assoc (repeat 48 z)). fold D. rewrite DE. unfold trim, trim_start. cbn [app].
+      rewrite (drop_while_stop uni_ws pad d _ P DW). change (d :: ds ++ rest) with ((d :: ds) ++ rest).
+      apply (trim_end_keep _ _ x D' RV XW). }
+    rewrite TR, <- DE. unfold D. exists z, (trim_end rest). rewrite <- app_assoc.
+    split; [reflexivity|]. split; [exact R|].
+    apply text_ok_head. apply text_ok_head in TX. destruct (trim_end_prefix rest) as (w & W).
+    destruct (trim_end rest) as [|c r]; [exact I|]. rewrite W in TX. exact TX.
+Qed.
+
+Lemma all_some_Forall2 {A B} (f : A -> option B) l : forall r,
+  all_some (map f l) = Some r <-> Forall2 (fun a b => f a = Some b) l r.
+Proof.
+  induction l as [|a l IH]; intro r; cbn [map all_some].
+  - split; [intro H; inversion H; constructor|intro H; inversion H; reflexivity].
+  - destruct (f a) as [b|] eqn:E.
+    + destruct (all_some (map f l)) as [r'|] eqn:AS.
+      * split; [intro H; inversion H; subst; constructor; [exact E|apply IH; reflexivity]|].
+        intro H. inversion H; subst. apply IH in H4. inversion H4; subst. congruence.
+      * split; [discriminate|]. intro H. inversion H; subst. apply IH in H4. discriminate.
+    + split; [discriminate|]. intro H. inversion H; subst. congruence.
+Qed.
+
+Lemma all_some_none {A B} (f : A -> option B) l :
+  all_some (map f l) = None <-> exists a, In a l /\ f a = None.
+Proof.
+  induction l as [|a l IH]; cbn [map all_some In].
+  - split; [discriminate|intros (a & [] & _)].
+  - destruct (f a) as [b|] eqn:E.
+    + destruct (all_some (map f l)) as [r'|] eqn:AS.
+      * split; [discriminate|]. intros (x & [<-|I] & N); [congruence|].
+        destruct IH as [_ IH]. specialize (IH (ex_intro _ x (conj I N))). discriminate.
+      * split; [|reflexivity]. intros _. destruct IH as [IH _]. destruct (IH eq_refl) as (x & I & N).
+        exists x. auto.
+    + split; [|reflexivity]. intros _. exists a. auto.
+Qed.
+
+Lemma Forall2_In_l {A B} (R : A -> B -> Prop) l l' a :
+  Forall2 R l l' -> In a l -> exists b, R a b.
+Proof.
+  induction 1 as [|x y l l' Rxy _ IH]; intros I; [contradiction|].
+  destruct I as [<-|I]; [exists y; exact Rxy|apply IH, I].
+Qed.
+
+Lemma Forall2_imp {A B} (R1 R2 : A -> B -> Prop) l l' :
+  (forall a b, R1 a b -> R2 a b) -> Forall2 R1 l l' -> Forall2 R2 l l'.
+Proof. intros H F. induction F; constructor; auto. Qed.
+
+Section ServFinish.
+Context {A : Type} (f : A -> option N) (P : A -> N -> Prop).
+Hypothesis HP : forall a n, f a = Some n <-> P a n.
+
+Definition serv_finish (es : list A) : option (list N) :=
+  match all_some (map f es) with
+  | Some l' => if has_dup l' then None else Some l'
+  | None => None
+  end.
+
+Lemma all_some_P es l : all_some (map f es) = Some l <-> Forall2 P es l.
+Proof.
+  rewrite all_some_Forall2. split; apply Forall2_imp; intros a b; apply HP.
+Qed.
+
+Lemma serv_some es l : serv_finish es = Some l <-> Forall2 P es l /\ NoDup l.
+Proof.
+  unfold serv_finish. destruct (all_some (map f es)) as [l'|] eqn:AS.
+  - apply all_some_P in AS. destruct (has_dup l') eqn:D.
+    + split; [discriminate|]. intros (F & ND). apply all_some_P in F, AS. rewrite F in AS. inversion AS; subst.
+      apply has_dup_false_iff in ND. congruence.
+    + apply has_dup_false_iff in D. split.
+      * intro H. inversion H; subst. auto.
+      * intros (F & _). apply all_some_P in F, AS. congruence.
+  - split; [discriminate|]. intros (F & _). apply all_some_P in F. congruence.
+Qed.
+
+Lemma serv_none es :
+  serv_finish es = None
+  <-> (exists e, In e es /\ forall n, ~ P e n) \/ (exists l, Forall2 P es l /\ ~ NoDup l).
+Proof.
+  unfold serv_finish. destruct (all_some (map f es)) as [l'|] eqn:AS.
+  - pose proof AS as F. apply all_some_P in F. destruct (has_dup l') eqn:D.
+    + split; [|reflexivity]. intros _. right. exists l'. split; [exact F|].
+      intro ND. apply has_dup_false_iff in ND. congruence.
+    + split; [discriminate|]. intros [(e & I & NP)|(l & F' & ND)].
+      * destruct (Forall2_In_l _ _ _ _ F I) as (b & Pb). apply NP in Pb. contradiction.
+      * apply all_some_P in F'. rewrite F' in AS. inversion AS; subst. apply has_dup_false_iff in D. contradiction.
+  - split; [|reflexivity]. intros _. left. apply all_some_none in AS as (a & I & N).
+    exists a. split; [exact I|]. intros n Pn. apply HP in Pn. congruence.
+Qed.
+End ServFinish.
+
+Lemma servings_string_eq pieces :
+  pieces <> [] -> Doc.no_sep 124 pieces ->
+  value_as_servings (YStr (Doc.join 124 pieces)) = serv_finish (fun e => extract_value (trim e)) pieces.
+Proof.
+  intros NE NS. unfold value_as_servings, serv_finish, as_u32, as_u64, as_str. cbn [untag].
+  rewrite split_on_join by assumption. reflexivity.
+Qed.
+
+Definition entry_reads (e : yaml) (n : N) : Prop :=
+  as_u32 e = Some n \/ (as_u32 e = None /\ exists s, as_str e = Some s /\ Doc.leading s n).
+
+Lemma serving_entry_iff e n : serving_entry e = Some n <-> entry_reads e n.
+Proof.
+  unfold serving_entry, entry_reads. destruct (as_u32 e) as [m|].
+  - split; [intro H; left; exact H|]. intros [H|(H & _)]; [exact H|discriminate].
+  - destruct (as_str e) as [s|].
+    + rewrite extract_iff. split; [intro H; right; split; [reflexivity|exists s; auto]|].
+      intros [H|(_ & s' & E & L)]; [discriminate|]. inversion E; subst. exact L.
+    + split; [discriminate|]. intros [H|(_ & s' & E & _)]; discriminate.
+Qed.
+
+Lemma servings_list_eq seq : value_as_servings (YSeq seq) = serv_finish serving_entry seq.
+Proof. reflexivity. Qed.
+
+(* ------------------------------------------------------------------ the model's float reader on the
+   number texts of the unit reader (digits and points): exact *)
+
+Lemma span_digits_eq s : span_digits s = (take_while is_digit s, drop_while is_digit s).
+Proof.
+  induction s as [|c r IH]; cbn [span_digits take_while drop_while]; [reflexivity|].
+  destruct (is_digit c); [rewrite IH|]; reflexivity.
+Qed.
+
+Definition step10 (a c : N) : N := a * 10 + (c - 48).
+
+Lemma pow10_succ n : (pow10 (0 - Z.of_nat (S n)) == pow10 (0 - Z.of_nat n) * (1 # 10))%Q.
+Proof.
+  unfold pow10. replace (0 - Z.of_nat (S n))%Z with ((0 - Z.of_nat n) + (-1))%Z by lia.
+  rewrite Qpower_plus by discriminate. reflexivity.
+Qed.
+
+Lemma frac_fold fp : forall a,
+  (inject_Z (Z.of_N (fold_left step10 fp a)) * pow10 (0 - Z.of_nat (List.length fp))
+   == inject_Z (Z.of_N a) + Doc.frac_value (map (fun c => (c - 48)%N) fp))%Q.
+Proof.
+  induction fp as [|d r IH]; intro a; cbn [fold_left List.length map Doc.frac_value].
+  - change (pow10 (0 - Z.of_nat 0)) with 1%Q. ring.
+  - rewrite pow10_succ, Qmult_assoc, IH. unfold step10 at 1.
+    rewrite N2Z.inj_add, N2Z.inj_mul, inject_Z_plus, inject_Z_mult.
+    change (inject_Z (Z.of_N 10)) with (10 # 1)%Q. field.
+Qed.
+
+Lemma dec_val_app ip fp : dec_val (ip ++ fp) = fold_left step10 fp (dec_val ip).
+Proof. unfold dec_val. rewrite fold_left_app. reflexivity. Qed.
+
+(* parse_number after the digits, the point and the digits, when nothing follows *)
+Definition pn_tail (ip fp : str) : option fval :=
+  let mant := dec_val (ip ++ fp) in
+  let sc := (0 - Z.of_nat (List.length fp))%Z in
+  if mant =? 0 then Some (FFin 0)
+  else if (400 <? sc)%Z then Some (FInf false)
+  else if (sc + Z.of_nat (List.length (ip ++ fp)) <? -400)%Z then Some (FFin 0)
+  else let q := (inject_Z (Z.of_N mant) * pow10 sc)%Q in
+       Some (if Qle_bool f64_overflow q then FInf false else FFin q).
+
+Lemma pn_tail_spec ip fp v :
+  pn_tail ip fp = Some (FFin v) ->
+  (v == inject_Z (Z.of_N (Doc.digits_value ip)) + Doc.frac_value (map (fun c => (c - 48)%N) fp))%Q.
+Proof.
+  unfold pn_tail. pose proof (frac_fold fp (dec_val ip)) as FF. rewrite <- dec_val_app in FF.
+  change (Doc.digits_value ip) with (dec_val ip).
+  destruct (dec_val (ip ++ fp) =? 0) eqn:Z.
+  - apply N.eqb_eq in Z. rewrite Z in FF. intro H. inversion H. rewrite <- FF. ring.
+  - destruct (400 <? 0 - Z.of_nat (List.length fp))%Z; [discriminate|].
+    destruct (0 - Z.of_nat (List.length fp) + Z.of_nat (List.length (ip ++ fp)) <? -400)%Z eqn:U.
+    + apply Z.ltb_lt in U. rewrite app_length in U. lia.
+    + cbv zeta.
+      destruct (Qle_bool f64_overflow (inject_Z (Z.of_N (dec_val (ip ++ fp))) * pow10 (0 - Z.of_nat (List.length fp)))%Q);
+        [discriminate|]. intro H. inversion H. exact FF.
+Qed.
+
+Lemma num_char_nondigit c : num_char c = true -> is_digit c = false -> c = 46.
+Proof. unfold num_char. intros H D. rewrite D in H. apply N.eqb_eq in H. exact H. Qed.
+
+Lemma parse_number_decimal s v :
+  forallb num_char s = true -> parse_number s = Some (FFin v) -> Doc.decimal s v.
+Proof.
+  intros NC. unfold parse_number. rewrite span_digits_eq.
+  pose proof (take_drop_while is_digit s) as SD. pose proof (take_while_forall is_digit s) as DI.
+  set (ip := take_while is_digit s) in *.
+  destruct (drop_while is_digit s) as [|c r] eqn:R1.
+  - rewrite app_nil_r in SD. intro H.
+    assert (T : pn_tail ip [] = Some (FFin v)).
+    { destruct (ip ++ []) eqn:E; [discriminate|]. rewrite <- E in H. exact H. }
+    exists ip, []. split; [left; auto|]. split; [exact DI|]. split; [reflexivity|].
+    split; [destruct (ip ++ []) eqn:E; [discriminate|discriminate]|apply pn_tail_spec, T].
+  - assert (C : c = 46).
+    { apply num_char_nondigit; [|apply drop_while_head in R1; exact R1].
+      rewrite SD, forallb_app in NC. apply andb_true_iff in NC as [_ NC]. cbn [forallb] in NC.
+      apply andb_true_iff in NC as [NC _]. exact NC. }
+    subst c. change (46 =? 46) with true. cbv iota. rewrite span_digits_eq.
+    pose proof (take_drop_while is_digit r) as SR. pose proof (take_while_forall is_digit r) as DF.
+    set (fp := take_while is_digit r) in *.
+    destruct (drop_while is_digit r) as [|c2 r2] eqn:R2.
+    + rewrite app_nil_r in SR. intro H.
+      assert (T : pn_tail ip fp = Some (FFin v) /\ ip ++ fp <> []).
+      { destruct (ip ++ fp) eqn:E; [discriminate|]. rewrite <- E in H. split; [exact H|discriminate]. }
+      exists ip, fp. split; [right; rewrite SD, <- SR; reflexivity|]. split; [exact DI|]. split; [exact DF|].
+      split; [apply T|apply pn_tail_spec, T].
+    + assert (C2 : c2 = 46).
+      { apply num_char_nondigit; [|apply drop_while_head in R2; exact R2].
+        rewrite SD, forallb_app in NC. apply andb_true_iff in NC as [_ NC]. cbn [forallb] in NC.
+        apply andb_true_iff in NC as [_ NC]. rewrite SR, forallb_app in NC.
+        apply andb_true_iff in NC as [_ NC]. cbn [forallb] in NC. apply andb_true_iff in NC as [NC _]. exact NC. }
+      subst c2. change (lower 46 =? 101) with false. cbv iota.
+      destruct (ip ++ fp); discriminate.
+Qed.
+
+Lemma parse_f64_decimal s v :
+  forallb num_char s = true -> parse_f64 s = Some (FFin v) -> Doc.decimal s v.
+Proof.
+  intros NC. unfold parse_f64. destruct s as [|c r] eqn:E; [discriminate|]. rewrite <- E in *.
+  assert (C : (c =? 45) = false /\ (c =? 43) = false).
+  { rewrite E in NC. cbn [forallb] in NC. apply andb_true_iff in NC as [NC _]. unfold num_char in NC.
+    apply orb_true_iff in NC as [D|D].
+    - split; apply digit_not; (exact D || lia).
+    - apply N.eqb_eq in D. subst c. split; reflexivity. }
+  destruct C as (C1 & C2). rewrite C1, C2.
+  destruct s as [|c' r'] eqn:E'; [discriminate|]. rewrite <- E' in *.
+  destruct (parse_number s) as [w|] eqn:P.
+  - cbn [fneg]. intro H. inversion H; subst w. apply parse_number_decimal; assumption.
+  - destruct (str_eqb (map lower s) s_nan); [discriminate|].
+    destruct (str_eqb (map lower s) s_inf || str_eqb (map lower s) s_infinity); discriminate.
 Qed.
